@@ -38,8 +38,22 @@ func c07GenPool(rng *Rng, n int, tag string) []c07Def {
 	var recs, unions, funs []int // indices
 	for i := 0; i < n; i++ {
 		id := fmt.Sprintf("%s%d", tag, i)
-		k := rng.Intn(14)
+		k := rng.Intn(16)
 		switch {
+		case k == 14 && len(recs) > 0:
+			// a field access on a parameter that nothing types (fc leaves it unresolved, whatever records exist)
+			r := ds[Choose(rng, recs)]
+			rid := strings.TrimPrefix(r.Name, "Rc")
+			ds = append(ds, c07Def{Name: "fa" + id, Kind: "let", Text: fmt.Sprintf("let fa%s p =\n  p.X%s\n", id, rid)})
+			funs = append(funs, i)
+		case k == 15:
+			// a parameter named like a package that an unrelated package_info may declare, with a field
+			// named like a function of that package: the parameter wins
+			ds = append(ds, c07Def{Name: "Cf" + id, Kind: "type", Text: fmt.Sprintf("type Cf%s = {Path%s: string; N%s: int}\n", id, id, id)})
+			ds = append(ds, c07Def{Name: "pa" + id, Kind: "let", Refs: []string{"Cf" + id},
+				Text: fmt.Sprintf("let pa%s (pk%s:Cf%s) =\n  pk%s.Path%s\n", id, id, id, id, id)})
+			funs = append(funs, len(ds)-1)
+			i++
 		case k >= 12 && i+1 < n:
 			// a package-level value and a function whose parameter type is inferred from it
 			ds = append(ds, c07Def{Name: "gv" + id, Kind: "let", Text: fmt.Sprintf("let gv%s = %d\n", id, i+3)})
@@ -568,6 +582,10 @@ func runC07(c *Ctx) {
 				id := strings.TrimSuffix(strings.TrimSuffix(strings.TrimPrefix(d.Name, "Tw"), "z"), "a")
 				e = append(e, c07Def{Name: fmt.Sprintf("fnx%d_%d", i, di), Kind: "let", Refs: []string{d.Name},
 					Text: fmt.Sprintf("let fnx%d_%d (a:int) =\n  {TX%s=a; TY%s=7}\n", i, di, id, id)})
+			case strings.HasPrefix(d.Name, "Cf"):
+				id := strings.TrimPrefix(d.Name, "Cf")
+				e = append(e, c07Def{Name: fmt.Sprintf("pkg%d_%d", i, di), Kind: "type", Anchor: d.Name,
+					Text: fmt.Sprintf("package_info pk%s =\n  let Path%s: ()->string\n  let N%s: int->int\n", id, id, id)})
 			case strings.HasPrefix(d.Name, "gv"):
 				// an unrelated package-level string match whose variable rule binds a name that happens
 				// to be the name of this package-level value (the binder is local to its rule)
